@@ -821,7 +821,7 @@ func (*Stream).parseFunctionArgs
 // the aggregator of a query is built on the query's own GROUP BY fields and aggregate items; every compound item is
 // added from its own text and inputs, none skipped; every aggregate whose argument is an expression gets its evaluator
 func (*DataProcessor).initializeAggregator
-  props C03 C01 C04 C07 C09 C20
+  props C03 C01 C04 C07 C09 C20 C05 C08 C10 C12 C15 C17
   modifies *
   observe fields := convertToAggregationFields
   count compound := AddPostAggregationExpression
